@@ -21,6 +21,9 @@ ASSUMPTIONS = ["--trash-dir $topdir/.Trash/$uid given explicitly by the user is 
 STATES = ['sticky', 'nonsticky', 'link_sticky', 'link_nonsticky', 'file', 'absent']
 
 
+RULE += ' Since round 8 insecure directories also hold payloads without .trashinfo.'
+
+
 def gen(rng, n):
     scns, metas = [], []
     for i in range(n):
@@ -36,6 +39,11 @@ def gen(rng, n):
                 name = 'shared%d' % k
                 nodes += scen.entry(lay.top1(v), name, 'sh/' + name, '2001-01-01T00:00:00', rng.choice(['f', 'd']))
                 names.append(name)
+            if rng.random() < 0.5:
+                # ... and a payload that has no .trashinfo (what an interrupted purge leaves): it is as untouchable as the rest
+                nodes += [[rng.choice(['f', 'f', 'd']), lay.top1(v) + '/files/lost', 'no info']]
+                if nodes[-1][0] == 'd':
+                    nodes[-1][2] = 0o755
         # a victim for trash-put on that volume
         victim = scen.Layout.j(v, 'data/victim')
         nodes += [['d', scen.Layout.j(v, 'data'), 0o755], ['f', victim, 'victim']]
